@@ -44,11 +44,12 @@ class HCell:
 
     def card(self):
         mat = '0' if not self.mat else '%d %s' % (self.mat, self.rho)
-        s = '%d %s %s' % (self.num, mat, render_expr(self.expr))
+        head = '%d %s %s' % (self.num, mat, render_expr(self.expr))
+        parts = {}
         if self.u:
-            s += ' u=%d' % self.u
+            parts['u'] = 'u=%d' % self.u
         if self.lat:
-            s += ' lat=%d' % self.lat
+            parts['lat'] = 'lat=%d' % self.lat
         if self.fill is not None or self.array is not None:
             star = ''
             tail = ''
@@ -58,17 +59,18 @@ class HCell:
                 tail = ' (%s)' % txt
             if self.array is not None and not getattr(self, 'single', False):
                 rng = ' '.join('%d:%d' % r for r in self.ranges)
-                s += ' %sfill=%s %s%s' % (star, rng, ' '.join(str(x) for x in self.array), tail)
+                parts['fill'] = '%sfill=%s %s%s' % (star, rng, ' '.join(str(x) for x in self.array), tail)
             else:
-                s += ' %sfill=%d%s' % (star, self.fill, tail)
+                parts['fill'] = '%sfill=%d%s' % (star, self.fill, tail)
         if self.trcl is not None:
             txt, st = self.trcl.paren()
             if self.trcl.spelling == 'number':
-                s += ' trcl=%s' % txt
+                parts['trcl'] = 'trcl=%s' % txt
             else:
-                s += ' %strcl=(%s)' % ('*' if st else '', txt)
-        s += ' imp:n=%d' % self.imp
-        return s
+                parts['trcl'] = '%strcl=(%s)' % ('*' if st else '', txt)
+        parts['imp'] = 'imp:n=%d' % self.imp
+        order = getattr(self, 'kw_order', None) or ['u', 'lat', 'fill', 'trcl', 'imp']
+        return ' '.join([head] + [parts[k] for k in order if k in parts])
 
 
 class HDeck(Deck):
